@@ -14,6 +14,7 @@ from .. import refcfg
 from .. import shellbuild
 
 PROP = 'C03'
+_SHARED = {}   # per worker process: component shape -> (parsed model, Builder)
 WILD = ['ALL', 'NONE', 'REMAINING']
 
 
@@ -70,9 +71,18 @@ def eval_case(case: dict) -> dict:
         got_map = {k: ('STS' if v.name == 'STS' else 'MTS') for k, v in matched.value.items()}
         cnt['match_calls'] = 1
         if case['level'] == 'build':
-            fc = shellbuild.parse_doc(M.to_json(component_model(
-                case['provides'], case['requires'], case['injected'])))
-            files = shellbuild.build_files(enc, fc)
+            shape = (tuple(case['provides']), tuple(case['requires']), tuple(case['injected']))
+            if case.get('shared') and shape in _SHARED:
+                # one Builder and one parsed model serving many configurations in a row
+                fc, builder = _SHARED[shape]
+                cnt['builds_on_reused_builder_and_model'] = 1
+            else:
+                fc = shellbuild.parse_doc(M.to_json(component_model(
+                    case['provides'], case['requires'], case['injected'])))
+                from dznpy.adv_shell import Builder  # pylint: disable=import-outside-toplevel
+                builder = Builder()
+                _SHARED[shape] = (fc, builder)
+            files = shellbuild.build_files(enc, fc, builder=builder)
             cnt['builds'] = 1
     except Exception as exc:  # pylint: disable=broad-except
         exc_info = common.classify_exception(exc)
@@ -186,7 +196,8 @@ def gen_cases(tier: str, rng: random.Random):
 
 def _worker(chunk):
     agg = {'violations': [], 'counts': {}, 'cases': []}
-    for case in chunk:
+    for idx, case in enumerate(chunk):
+        case = dict(case, shared=idx % 3 != 0)
         res = eval_case(case)
         for key, val in res['counts'].items():
             agg['counts'][key] = agg['counts'].get(key, 0) + val
@@ -205,7 +216,7 @@ def main(tier: str) -> int:
                 "side's names + one unknown name + (requires side) one injected name) for one "
                 'side against every component shape, at match and at build level, with the other '
                 f'side fixed to a valid selection; names per side <= {2 if tier == "quick" else 3}'}
-    run.require('match_calls', 'builds', 'headers_inspected', 'ref_accept', 'ref_reject',
+    run.require('match_calls', 'builds', 'builds_on_reused_builder_and_model', 'headers_inspected', 'ref_accept', 'ref_reject',
                 'ref_unspecified')
     chunks = [cases[i:i + 400] for i in range(0, len(cases), 400)]
     for _item, res in run.pmap(_worker, chunks):
